@@ -2,7 +2,7 @@
 // QXmppClient) along behaviours of spec/Atm.tla.
 // Behaviour: {"policy":"None|Toakafa","init":[15 levels, accounts x keys],
 //             "steps":[{"a":"Manual","o":"a","auth":["a1"],"dis":[]},
-//                      {"a":"TrustMsg","from":"own","sk":"o1","owners":[{"o":"a","t":["a2"],"d":[]}]},
+//                      {"a":"TrustMsg","from":"own","sk":"o1","owners":[{"o":"a","t":["k"],"d":[]},{"o":"b","t":[],"d":["k"]}]},
 //                      {"a":"OwnEcho","from":"own","sk":"o1","owners":[...]}]}
 // After every step the trust level of every (account, key) pair and the postponed decisions held
 // under every key id are read back through the trust manager / storage API and logged
@@ -34,7 +34,10 @@ namespace {
 const QString ENC = QStringLiteral("eu.siacs.conversations.axolotl");
 const QString NS_ATM = QStringLiteral("urn:xmpp:atm:1");
 const QStringList ACCTS = { "own", "a", "b" };
-const QStringList KEYS = { "o1", "o2", "a1", "a2", "b1" };
+// key ids; a key is an (account, key id) pair: "k" exists under every account
+const QStringList KEYS = { "o1", "o2", "a1", "b1", "k" };
+// ids of keys that send trust messages (each belongs to one account, see spec/Atm.tla)
+const QStringList SENDER_IDS = { "o1", "o2", "a1", "b1" };
 const QString OWN_FULL = QStringLiteral("me@example.org/dev1");
 
 QString bareJid(const QString &acct)
@@ -175,7 +178,7 @@ struct Env {
                     ++listed;
                     auto o = acctOf(jt.key());
                     auto k = QString::fromUtf8(jt.value());
-                    if (o.isEmpty() || !KEYS.contains(k)) {
+                    if (o.isEmpty() || !KEYS.contains(k) || !SENDER_IDS.contains(sk)) {
                         ++stray;
                         continue;
                     }
